@@ -201,7 +201,7 @@ Proof.
 Qed.
 
 (* What happens when the round-trip hypothesis fails in the way Go's compress/flate fails
-   (F22: NewWriterDict emits the dictionary in front of an incompressible message when it
+   (F28: NewWriterDict emits the dictionary in front of an incompressible message when it
    chooses a stored block): the reader hands up dictionary ++ message. *)
 Lemma dict_leak_breaks_delivery deflate inflate c tx rx m :
   mode_of c = MTakeover -> tx_win tx = rx_win rx -> tx_win tx <> [] ->
@@ -214,3 +214,45 @@ Proof.
   - intros E. apply Hne. apply (f_equal (@length N)) in E. rewrite app_length in E.
     destruct (tx_win tx); [reflexivity | cbn in E; lia].
 Qed.
+
+(* rd_follow (the judge's leak-aware reader) without any leak: the outputs are the messages and
+   the dictionaries are wins_after, i.e. the writer's *)
+Lemma rd_follow_no_leak c ms : forall w,
+  map fst (rd_follow c w (map (fun m => (m, false)) ms)) = ms /\
+  map snd (rd_follow c w (map (fun m => (m, false)) ms)) = wins_after c w ms.
+Proof.
+  induction ms as [|m ms IH]; intros w; [split; reflexivity|].
+  cbn [map rd_follow wins_after fst snd].
+  destruct (IH (match mode_of c with MTakeover => win_next (window_size c) w m | _ => w end)) as [E1 E2].
+  split; f_equal; assumption.
+Qed.
+
+(* a leak on a non-empty dictionary always shows: the reader's output is not the message *)
+Lemma rd_follow_leak_shows c w m ms : w <> [] ->
+  exists w', rd_follow c w ((m, true) :: ms) = (w ++ m, w') :: rd_follow c w' ms /\ w ++ m <> m.
+Proof.
+  intros Hne. cbn [rd_follow fst snd]. eexists. split; [reflexivity|].
+  intros E. apply Hne. apply (f_equal (@length N)) in E. rewrite app_length in E.
+  destruct w; [reflexivity | cbn in E; lia].
+Qed.
+
+(* F29, about the FORMER Transport.Read (drains = false; repaired in /repo by 1ebe65c): on a Conn
+   with the coder/nhooyr rule, with compression on, every read after the first failed *)
+Lemma former_read_strict_conn_loses_messages m r rest : m <> MOff ->
+  conn_rule_gen false true m (r :: rest) = r :: map (fun _ => None) rest.
+Proof. destruct m; [congruence | reflexivity | reflexivity]. Qed.
+
+(* Read as it is now drains the message reader: the rule of the Conn has no effect ... *)
+Lemma conn_rule_id strict m reads : conn_rule strict m reads = reads.
+Proof.
+  unfold conn_rule, conn_rule_gen, read_drains_to_eof. rewrite andb_false_r.
+  destruct m, reads; reflexivity.
+Qed.
+
+(* ... so on a strict Conn as on a lenient one, for every configuration and message sequence,
+   the peer's reads are the written messages, in order, one per call (under inflate_deflate) *)
+Lemma delivery_on_any_conn deflate inflate :
+  (forall l d m, inflate d (deflate l d m) = (m, true)) ->
+  forall strict c ms tx rx, tx_win tx = rx_win rx ->
+  conn_rule strict (mode_of c) (snd (rx_run inflate c rx (snd (tx_run deflate c tx ms)))) = map Some ms.
+Proof. intros H strict c ms tx rx Hw. rewrite conn_rule_id. now apply (delivery deflate inflate H). Qed.
